@@ -7,6 +7,25 @@ BASE_NOTE = ("Trusted: Lean 4.33.0 kernel (axioms propext, Classical.choice, Quo
              "tied to /repo's working tree by running both on the same inputs on every run.")
 
 CHECKS = {
+    "C13": {
+        "category": "proof",
+        "text": "Lean theorems about Model/Container.lean (writer state machine, footer serialisation, reader) and "
+                "Model/Varint.lean for all operation histories; the model is executed against the real Archive on random "
+                "histories of register_stream/add_part/add_part_buffered/flush_buffers/set_raw_size (file bytes, per-operation "
+                "results, directory, every part by id and sequentially, out-of-range ids) and against encode/decode_varint; the "
+                "round-trip law is also evaluated directly on the real code against an independent commit log.",
+        "design_ref": "DESIGN.md §5 C13",
+        "technique": "Lean 4 proof over a byte-list model + random-history correspondence",
+    },
+    "C14": {
+        "category": "proof",
+        "text": "Lean theorems about the reader of Model/Container.lean (open on an arbitrary byte string: ok / err / panic / "
+                "oversized allocation); the model is executed against Archive::open on every strict prefix of archives written by "
+                "the real code (all offsets up to 8 kB, sampled offsets plus the last 600 bytes beyond) and on hand-made garbage "
+                "files; the property (every strict prefix is rejected with Err) is evaluated directly on the real code.",
+        "design_ref": "DESIGN.md §5 C14",
+        "technique": "Lean 4 proof over a byte-list model + exhaustive-prefix correspondence",
+    },
     "C20": {
         "category": "proof",
         "text": "Lean theorems about Model/Kmer.lean (UInt64 shifts/masks exactly as kmer.rs) for all k in 1..32 and all "
